@@ -122,6 +122,8 @@ def build_and_run(module_source, driver_source, workdir, name, mode="asan", time
     else:
         flags = ["-fsanitize=thread"]
         env = {"TSAN_OPTIONS": "halt_on_error=1:report_signal_unsafe=0"}
+    if kernels.uses_posix_bessel(Path(mc).read_text()):
+        flags = [*flags, "-D_DEFAULT_SOURCE"]  # known finding C19:bessel-posix-undeclared (see kernels.cc_compile)
     cmd = ["clang", "-std=c17", "-O1", "-g", "-w", *flags, f"-I{kernels.include_dir()}", str(mc), str(dc), "-lm", "-lpthread", "-o", str(exe)]
     r = subprocess.run(cmd, capture_output=True, text=True, cwd=str(wd))
     if r.returncode != 0:
